@@ -149,6 +149,8 @@ func C18(c *Ctx) {
 		r.Check("C18-1", key+":"+fld, c.Pos(fn.Pos()), ok, "Config."+fld+" must be the value of flag -"+name+" read after flag.Parse, unconditionally")
 	}
 
+	c.stdoutInventoryRule("C18-5")
+
 	g := c.generateFacts("C18-2")
 	if g == nil {
 		return
